@@ -193,8 +193,30 @@ def edge_heading_cases():
             out.append((root, p.pre_parse(shape % (' ' + h))))
     return out
 
+def attr_cases():
+    """a class and / or an attribute list on every construct that takes one (all hierarchical and speech keywords, blocks, lists, tables,
+    cells, crossheadings, quotes, paragraphs, inlines): the attribs of a node are a plain dict of strings whatever supplied them - the
+    text, a default, or both"""
+    p = impl.parser()
+    out = []
+    forms = ['.urgent', '{refersTo #x}', '.a.b{title t|status s}', '{name mine}', '{class c}', '.c{class d}']
+    for f in forms:
+        for kw in gen.HIER[:6] + gen.HIER[-3:]:
+            out.append(('act', p.pre_parse('%s%s 1. - Heading\n  text\n' % (kw, f))))
+        for kw in gen.SPEECH_CONTAINERS:
+            out.append(('debate', p.pre_parse('%s%s - Questions to the Minister\n  SPEECH\n    FROM The Speaker:\n    Order, order.\n' % (kw, f))))
+        for kw in gen.SPEECH_GROUPS:
+            out.append(('debate', p.pre_parse('DEBATESECTION\n  %s%s\n    FROM a\n    b\n' % (kw, f))))
+        for kw in gen.SPEECH_BLOCKS:
+            out.append(('debate', p.pre_parse('DEBATESECTION\n  %s%s applause\n' % (kw, f))))
+        for shape in ('P%s text\n', 'CROSSHEADING%s ch\n', 'ITEMS%s\n  ITEM%s (a)\n    x\n', 'BULLETS%s\n  * x\n', 'TABLE%s\n  TR\n    TC%s\n      c\n    TH%s\n      h\n',
+                      'QUOTE%s\n  q\n', 'BLOCKS%s\n  x\n', 'PREFACE\n  LONGTITLE%s t\nBODY\n  x\n', 'x {{abbr%s A}} {{term%s t}} {{inline%s i}} {{def%s d}} {{em%s e}} {{+%s i}} {{-%s d}}\n',
+                      'SCHEDULE%s - One\n  x\n', 'SEC 1\n  SUBHEADING%s s\n  x\n'):
+            out.append(('act', p.pre_parse(shape.replace('%s', f))))
+    return out
+
 def correspondence(ctx):
-    cs = cases(ctx, ctx.n(700, 40000)) + keyword_in_block_cases() + edge_heading_cases()
+    cs = cases(ctx, ctx.n(700, 40000)) + keyword_in_block_cases() + edge_heading_cases() + attr_cases()
     ctx._cases = cs
     stages.stage_dict(ctx, cs)
 
